@@ -326,6 +326,8 @@ def run(ctx: Ctx):
     peer_connection_ownership(ctx, "C12-R4")
     disconnect_record(ctx, "C12-R4b")
     ready_state_stores(ctx, "C12-R5")
+    from .common_node import ready_substate_transitions_atomic
+    ready_substate_transitions_atomic(ctx, "C12-R5b")
     ready_constants(ctx, "C12-R6")
     from . import c06, c14
     ctx.include(c06.run, {"C06-R1"}, "C12-R7",
@@ -339,10 +341,62 @@ def run(ctx: Ctx):
     from .common_node import socket_close_confined
     socket_close_confined(ctx, "C12-R9")
     # the reconnect scan is due in every round of the I/O loop, also in busy ones
+    # the end-of-file of a peer that sends DPR and hangs up at once
+    ctx.rule("C12-R14", "a DPR that has been received is acted upon before the loss of the connection "
+                        "is: the end of the stream does not overtake input still queued for the reader", floor=1)
+    hc_ = nc.methods.get("_handle_connections")
+    gh_ = cfg_of(hc_)
+    ath_ = Atomizer(model, hc_.module, nc)
+    GONE = model.fold_name(peer_mod, "DISCONNECT_REASON_GONE_AWAY") if False else None
+    cons = "_handle_connections:eof-after-queued-input"
+    ctx.inst(cons)
+    eof_sites = []
+    for n in gh_.nodes:
+        for c in n.calls():
+            if A.call_name(c) == "self.close_connection_socket" and len(c.args) >= 2 \
+                    and "GONE_AWAY" in ast.unparse(c.args[1]):
+                eof_sites.append((n, A.dotted(c.args[0])))
+    if not eof_sites:
+        ctx.error("no GONE_AWAY close site found in _handle_connections", rule="C12-R14")
+    for n, cv in eof_sites:
+        fx = must_facts(gh_, ath_, n)
+        considers_queue = any("_read_buffer_queue" in str(f_[0]) or "unread" in str(f_[0]) or "pending_input" in str(f_[0])
+                              for f_ in fx)
+        via_queue = False
+        if not considers_queue and not via_queue:
+            ctx.fail(cons, gh_.loc(n), f"when recv() returns no bytes the I/O thread removes `{cv}` at once, "
+                     f"while bytes it read just before may still wait in the connection's read queue: a "
+                     f"peer that sends its DPR and hangs up without waiting for the DPA is recorded as "
+                     f"GONE_AWAY (the queued DPR is then dropped by the closed connection) and is dialled "
+                     f"again although the loss followed a DPR")
+    ctx.rule("C12-R15", "the reconnect wait is measured without losing up to a second to truncation", floor=1)
+    cons = "_reconnect_peers:wait#whole-seconds"
+    ctx.inst(cons)
+    peer_cls_ = model.cls("node.peer", "Peer")
+    ds_ = peer_cls_.methods.get("disconnected_since")
+    rem_ = nc.methods.get("remove_peer_connection")
+    trunc_read = ds_ is not None and any(isinstance(x, ast.BinOp) and isinstance(x.op, ast.Sub)
+                                         and isinstance(x.left, ast.Call) and A.call_name(x.left) == "int"
+                                         for x in ast.walk(ds_.node))
+    trunc_stamp = rem_ is not None and any(
+        isinstance(x, ast.Assign) and any(isinstance(t, ast.Attribute) and t.attr == "last_disconnect" for t in x.targets)
+        and isinstance(x.value, ast.Call) and A.call_name(x.value) == "int" for x in ast.walk(rem_.node))
+    rp_ = nc.methods.get("_reconnect_peers")
+    strict_lt = rp_ is not None and any(
+        isinstance(x, ast.Compare) and len(x.ops) == 1 and isinstance(x.ops[0], ast.Lt)
+        and "disconnected_since" in ast.unparse(x.left) and "reconnect_wait" in ast.unparse(x.comparators[0])
+        for x in ast.walk(rp_.node))
+    if trunc_read and trunc_stamp and strict_lt:
+        ctx.fail(cons, rp_.loc(), "the loss is stamped int(time.time()), the elapsed time is int(now) - stamp "
+                 "and the peer is skipped while that is < reconnect_wait: both truncations can add up to "
+                 "almost a second, so a peer lost at t=5000.9 with reconnect_wait=1 is dialled at "
+                 "t=5001.0, 0.1 s after the loss")
     from .common_node import io_loop_every_round
     io_loop_every_round(ctx, "C12-R10", want=("reconnect",))
     # writer, readers and purge of the flat transaction tables agree on the key
     from .common_node import transaction_table_keys
     transaction_table_keys(ctx, "C12-R12")
+    from .common_node import close_is_thread_tolerant
+    close_is_thread_tolerant(ctx, "C12-R13")
     from .common_node import clock_agreement
     clock_agreement(ctx, "C12-R11", {("node.peer", "Peer", "last_disconnect"): ["disconnected_since"]})
